@@ -32,7 +32,7 @@ def parse_json_lines(out):
 
 
 def run(module, cfg, trace_file=None, workers=16, timeout=3000, env_extra=None, simulate=None, extra_args=None,
-        expect_violation=False, heap="6g", dfid=None):
+        expect_violation=False, heap="10g", dfid=None):
     """returns dict(states, distinct, transitions?, out, lines, ok, violated, wall)"""
     meta = scratch_dir("tlc")
     env = dict(os.environ)
@@ -85,25 +85,37 @@ def run(module, cfg, trace_file=None, workers=16, timeout=3000, env_extra=None, 
     return res
 
 
-def run_chunked(module, cfg, rows, chunk=25000, **kw):
-    """judge a big list of event rows in several TLC runs (bounded memory / JSON size); returns (merged verdict lines, list of results)"""
-    from common import write_ndjson
+def run_chunked(module, cfg, rows, chunk=25000, max_bytes=24_000_000, **kw):
+    """judge a big list of event rows in several TLC runs: at most `chunk` rows and about `max_bytes` of JSON per run
+    (a 70 MB trace made the JVM thrash in garbage collection for an hour); returns (merged verdict lines, list of results)"""
     lines, results = [], []
-    for k in range(0, max(1, len(rows)), chunk):
-        part = rows[k:k + chunk]
+    part, size = [], 0
+
+    def flush():
+        nonlocal part, size
         if not part:
-            continue
+            return None
         work = scratch_dir("chunk")
         try:
             tf = os.path.join(work, "trace.ndjson")
-            write_ndjson(tf, part)
+            with open(tf, "w") as f:
+                f.write("\n".join(part) + "\n")
             res = run(module, cfg, trace_file=tf, **kw)
         finally:
             shutil.rmtree(work, ignore_errors=True)
+        part, size = [], 0
         results.append(res)
-        lines += res["lines"]
-        if res["violated"]:
-            break
+        lines.extend(res["lines"])
+        return res
+    for r in rows:
+        js = json.dumps(r, separators=(",", ":"))
+        if part and (len(part) >= chunk or size + len(js) > max_bytes):
+            res = flush()
+            if res["violated"]:
+                return lines, results
+        part.append(js)
+        size += len(js)
+    flush()
     return lines, results
 
 
